@@ -96,6 +96,13 @@ def run(ctx):
                     w[o] = lab[0]
                     wirings.append(w)
                     break
+        # one wiring per OUTPUT: only that output wired, to a device label it offers (every output counts, the heater relay too)
+        for k2, o in enumerate(outs):
+            lab = [x for x in items[o]["items"] if any(x.startswith(d) for d in l["devices"] if any(("Ud" + d).upper() == u.upper() for u in l["demands"]) and d not in KNOWN_UNHANDLED)]
+            if lab:
+                w = {oo: ("NA" if "NA" in items[oo]["items"] else items[oo]["items"][0]) for oo in outs}
+                w[o] = lab[k2 % len(lab)]
+                wirings.append(w)
         reqs.append((c, l, wirings))
     for (c, l, wirings) in reqs:
         results = {seed: worker(c["stem"], l["stem"], wirings, seed) for seed in (0, 1, 7)}
